@@ -213,6 +213,121 @@ func nativeGo(n int) Prog {
 	}
 }
 
+// goFromClosure: a declared function that uses package-level variables is
+// started with go from inside a function literal that captures locals (at
+// closure depth d), directly and through a function value.
+func goFromClosure(depth int) Prog {
+	var b strings.Builder
+	b.WriteString("package main\n\nvar g = 3\nvar names = []string{\"a\", \"b\"}\n\n")
+	b.WriteString("func add(ch chan int, x int) { g += x; ch <- g*10 + len(names) }\n\n")
+	b.WriteString("func main() {\n\tch := make(chan int)\n\tbase := 5\n\tlabel := \"L\"\n")
+	b.WriteString("\tf := func() {\n")
+	for i := 0; i < depth; i++ {
+		fmt.Fprintf(&b, "\t\tfunc() {\n\t\tbase += %d\n", i+1)
+	}
+	b.WriteString("\t\tgo add(ch, base)\n\t\tprintln(label, <-ch)\n\t\th := add\n\t\tgo h(ch, base+1)\n\t\tprintln(label, <-ch)\n")
+	for i := 0; i < depth; i++ {
+		b.WriteString("\t\t}()\n")
+	}
+	b.WriteString("\t}\n\tf()\n\tprintln(g, base)\n}\n")
+	return Prog{Name: fmt.Sprintf("goclosure-d%d", depth), Src: b.String()}
+}
+
+// selectClosed: a fan-in loop whose select receives with assignment (v, ok)
+// from producers that close their channels: after a close the received value
+// must be the zero value, whatever was received before.
+func selectClosed(n int, twoValues bool) Prog {
+	recv := "case v := <-a:\n\t\t\tif v == 0 {\n\t\t\t\ta = nil\n\t\t\t\topen--\n\t\t\t}\n\t\t\tsum += v\n\t\t\tlast = v"
+	if twoValues {
+		recv = "case v, ok := <-a:\n\t\t\tif !ok {\n\t\t\t\ta = nil\n\t\t\t\topen--\n\t\t\t}\n\t\t\tsum += v\n\t\t\tlast = v"
+	}
+	src := fmt.Sprintf(`package main
+
+func produce(ch chan int, from, n int) {
+	for i := 0; i < n; i++ {
+		ch <- from + i
+	}
+	close(ch)
+}
+
+func main() {
+	a := make(chan int)
+	b := make(chan string, 1)
+	go produce(a, 7, %d)
+	go func() {
+		b <- "x"
+		close(b)
+	}()
+	open := 2
+	sum, last, strs := 0, -1, ""
+	for open > 0 {
+		select {
+		%s
+		case s, ok := <-b:
+			if !ok {
+				b = nil
+				open--
+			}
+			strs += s + "."
+		}
+	}
+	println(sum, last, strs)
+}
+`, n, recv)
+	return Prog{Name: fmt.Sprintf("selectclosed-n%d-ok%v", n, twoValues), Src: src}
+}
+
+// callbackPar: native code calls the same Scriggo function value (with results)
+// from several goroutines at once and adds up what it returns.
+func callbackPar(workers, n int) Prog {
+	body := fmt.Sprintf(`func main() {
+	k := 3
+	sq := func(i int) (int, string) { return i*i + k, "s" }
+	total, strs := PARMAP(sq, %d, %d)
+	println(total, strs)
+	total, strs = PARMAP(twice, %d, %d)
+	println(total, strs)
+}
+
+func twice(i int) (int, string) { return 2 * i, "t" }
+`, workers, n, workers, n)
+	return Prog{
+		Name: fmt.Sprintf("callbackpar-w%d-n%d", workers, n),
+		Src:  "package main\n\nimport \"helper\"\n\n" + strings.ReplaceAll(body, "PARMAP", "helper.ParMap"),
+		GcSrc: `package main
+
+import "sync"
+
+func parMap(f func(int) (int, string), workers, n int) (int, int) {
+	var wg sync.WaitGroup
+	sums := make([]int, workers)
+	lens := make([]int, workers)
+	for w := 0; w < workers; w++ {
+		wg.Add(1)
+		go func(w int) {
+			defer wg.Done()
+			for i := w; i < n; i += workers {
+				v, s := f(i)
+				if v != 0 || i == 0 {
+					sums[w] += v
+				}
+				lens[w] += len(s)
+			}
+		}(w)
+	}
+	wg.Wait()
+	t, l := 0, 0
+	for w := range sums {
+		t += sums[w]
+		l += lens[w]
+	}
+	return t, l
+}
+
+` + strings.ReplaceAll(body, "PARMAP", "parMap"),
+	}
+}
+
 // Programs returns the program grid of a tier.
 func Programs(tier string) []Prog {
 	var ps []Prog
@@ -258,6 +373,11 @@ func Programs(tier string) []Prog {
 	ps = append(ps, loopVar(2), loopVar(3))
 	ps = append(ps, recvSelectDone(1), recvSelectDone(2))
 	ps = append(ps, selectShapes(), multiConsumer(2, 3), nativeGo(2), nativeGo(3), fixedConsumers(2, 4))
+	ps = append(ps, goFromClosure(0), goFromClosure(1), goFromClosure(3))
+	for _, n := range []int{0, 1, 2} {
+		ps = append(ps, selectClosed(n, true))
+	}
+	ps = append(ps, selectClosed(2, false))
 	if tier == "thorough" {
 		ps = append(ps, multiConsumer(3, 4), nativeGo(8))
 	}
